@@ -25,6 +25,11 @@ pub enum Then {
     /// frame declaring 2^50 (even offset) or 2^63 + 1 (odd offset) bytes - and nothing more: a
     /// client that stalls inside a frame it has only announced. Nobody else may notice.
     Huge,
+    /// the client is gone before the listener has taken it from the backlog (byte offset 0):
+    /// connect and close with no await in between - on TCP with SO_LINGER 0 (an RST while the
+    /// connection waits in the accept queue; even offset) or orderly (odd offset, and always on
+    /// IPC). One failed handshake like any other.
+    Abort,
 }
 
 #[derive(Debug, Clone, Serialize, Deserialize, PartialEq, Eq, Hash)]
@@ -65,6 +70,9 @@ pub fn stall_outcome(c: &StallCase) -> Outcome {
     }
     if c.stallers.iter().any(|s| s.then == Then::Invalid) {
         o.class("complete-but-invalid-handshake");
+    }
+    if c.stallers.iter().any(|s| s.then == Then::Abort) {
+        o.class("gone-before-accept");
     }
     if c.stallers.iter().any(|s| s.then == Then::Huge) {
         o.class("stalls-inside-an-announced-huge-frame");
@@ -117,7 +125,18 @@ pub fn stall_outcome(c: &StallCase) -> Outcome {
             // stallers connect and stop
             let hs = refcodec::handshake_bytes(peer_type, None);
             let mut stallers: Vec<(RawConn, Staller)> = vec![];
+            let mut aborted = 0usize;
             for st in &c.stallers {
+                if st.then == Then::Abort {
+                    match realnet::abort_connect(&ep, st.offset % 2 == 0) {
+                        Ok(()) => aborted += 1,
+                        Err(e) => {
+                            fail!(f, format!("C20/{}/listener-stopped-accepting", who), "a further connection was refused: {}", e);
+                            return f;
+                        }
+                    }
+                    continue;
+                }
                 match realnet::raw_connect(&ep).await {
                     Ok(mut rc) => {
                         let k = if matches!(st.then, Then::Invalid | Then::Huge) { 0 } else { st.offset.min(hs.len() - 1) };
@@ -161,15 +180,16 @@ pub fn stall_outcome(c: &StallCase) -> Outcome {
             }
             // no premature events for clients that are merely holding
             drain_events(&mut monitor, &mut accepted, &mut failed);
-            if failed != 0 {
-                fail!(f, format!("C20/{}/accept-failure-reported-for-a-client-that-is-only-slow", who), "{} AcceptFailed events while all stallers are still connected and silent", failed);
+            if failed > aborted {
+                fail!(f, format!("C20/{}/accept-failure-reported-for-a-client-that-is-only-slow", who), "{} AcceptFailed events while all stallers ({} of them already gone) are still connected and silent", failed, aborted);
             }
             // stallers act
-            let mut want_failed = 0usize;
+            let mut want_failed = aborted;
             for (rc, st) in stallers.iter_mut() {
                 match st.then {
                     Then::Hold => {}
                     Then::Close => {}
+                    Then::Abort => {}
                     Then::Garbage => {
                         // bytes that, whatever was sent before, can only end in a refusal: zeros
                         // up to the end of the greeting (bad signature / version 0 / empty
@@ -356,6 +376,15 @@ pub fn run(ctx: &Ctx) -> (Report, PropertyMeta) {
             for v in 0..2 {
                 cases.push(StallCase { kind: *kind, transport, stallers: vec![Staller { offset: v, then: Then::Huge }] });
             }
+            // gone before accept: reset / orderly, alone and three in a row next to a holder
+            for v in 0..2 {
+                cases.push(StallCase { kind: *kind, transport, stallers: vec![Staller { offset: v, then: Then::Abort }] });
+            }
+            cases.push(StallCase {
+                kind: *kind,
+                transport,
+                stallers: vec![Staller { offset: 0, then: Then::Abort }, Staller { offset: 11, then: Then::Hold }, Staller { offset: 1, then: Then::Abort }, Staller { offset: 2, then: Then::Abort }],
+            });
         }
     }
     // MANY simultaneous stallers (any fixed bound on pending handshakes starves everybody else)
@@ -385,7 +414,7 @@ pub fn run(ctx: &Ctx) -> (Report, PropertyMeta) {
             let stallers = (0..k)
                 .map(|_| {
                     let offset = s.below(hs_len);
-                    let then = s.pick(&[Then::Hold, Then::Hold, Then::Close, Then::Garbage, Then::Garbage, Then::Invalid, Then::Huge]);
+                    let then = s.pick(&[Then::Hold, Then::Hold, Then::Close, Then::Garbage, Then::Garbage, Then::Invalid, Then::Huge, Then::Abort]);
                     Staller { offset, then }
                 })
                 .collect();
